@@ -27,6 +27,7 @@ from exabgp.bgp.message.update.attribute.tunnel_encap.sr_policy.candidate_path_n
 from exabgp.bgp.message.update.attribute.tunnel_encap.sr_policy.binding_sid import BindingSIDSubTLV
 from exabgp.bgp.message.update.attribute.tunnel_encap.sr_policy.srv6_binding_sid import SRv6BindingSIDSubTLV
 from exabgp.bgp.message.update.attribute.tunnel_encap.sr_policy.segment_list import SegmentListSubTLV
+from exabgp.util import json_members
 from exabgp.util.types import Buffer
 
 _SR_POLICY_TUNNEL_TYPE = 15
@@ -70,7 +71,8 @@ class SRPolicyTunnel(TunnelTypeTLV):
                 parts.append(tlv.json())
         if segment_lists:
             parts.append('"segment-lists": [' + ', '.join(segment_lists) + ']')
-        return '"sr-policy": {' + ', '.join(parts) + '}'
+        # a sub-TLV sent twice is listed under its key, not given the same key twice
+        return '"sr-policy": {' + json_members(parts) + '}'
 
     def __str__(self) -> str:
         return 'sr-policy {' + ' '.join(str(t) for t in self.subtlvs) + '}'
